@@ -37,6 +37,7 @@ OptsQuick == {[minf |-> 0, filter |-> "no-filter", ambigMissing |-> FALSE, ambig
               [minf |-> 1, filter |-> "no-filter", ambigMissing |-> TRUE, ambigMask |-> FALSE, noGapOnly |-> FALSE],
               [minf |-> 0, filter |-> "no-const", ambigMissing |-> FALSE, ambigMask |-> FALSE, noGapOnly |-> FALSE],
               [minf |-> 0, filter |-> "no-const", ambigMissing |-> TRUE, ambigMask |-> FALSE, noGapOnly |-> FALSE],
+              [minf |-> 0, filter |-> "no-filter", ambigMissing |-> TRUE, ambigMask |-> TRUE, noGapOnly |-> FALSE],
               [minf |-> 2, filter |-> "no-ambig", ambigMissing |-> FALSE, ambigMask |-> TRUE, noGapOnly |-> FALSE],
               [minf |-> 1, filter |-> "no-ambig-or-const", ambigMissing |-> TRUE, ambigMask |-> FALSE, noGapOnly |-> FALSE]}
 Opts == IF OptSet = "all" THEN OptsAll ELSE OptsQuick
@@ -121,7 +122,12 @@ AlignProbe(f, p) == [thr |-> p.thr, filter |-> p.filter, am |-> p.am,
                      cols |-> LET kept == FilterTable(Content(f), Max2(p.thr, 1), p.filter, p.am, FALSE, FALSE).rows
                               IN [i \in 1..Cardinality(kept) |-> SetToSeq(kept)[i][2]]]
 Probes(f) == [i \in 1..Cardinality(ProbeSettings) |-> AlignProbe(f, SetToSeq(ProbeSettings)[i])]
-LastFile == IF hist = <<>> THEN "a" ELSE hist[Len(hist)].file
+\* the probes go to a file that was written with --filter-ambig-as-missing if there is one (that is
+\* where cached counts differ from a fresh file's), else to the file of the last operation
+AmSteps == {i \in 1..Len(hist) : hist[i].op.do = "weed" /\ hist[i].op.opts.ambigMissing /\ Present(hist[i].file)}
+LastFile == IF hist = <<>> THEN "a"
+            ELSE IF AmSteps # {} THEN hist[CHOOSE i \in AmSteps : \A j \in AmSteps : j <= i].file
+            ELSE hist[Len(hist)].file
 Emit == (EmitReplay /\ (Len(hist) = MaxOps \/ ~ENABLED Next)) =>
    PrintT(<<"REPLAY", ToJson([kind |-> "skahist", hist |-> hist, last |-> LastFile,
                               n |-> NSamples(Content(LastFile)), probes |-> Probes(LastFile),
